@@ -164,8 +164,8 @@ class BlockSeries:
         """
         if not isinstance(item, tuple):  # Allow indexing with integer
             item = (item,)
-        # Views outlive this call, do not let them follow later changes of the caller's lists.
-        item = tuple(deepcopy(i) if isinstance(i, list) else i for i in item)
+        # Views outlive this call, do not let them follow later changes of the caller's lists or arrays.
+        item = tuple(deepcopy(i) if isinstance(i, (list, np.ndarray)) else i for i in item)
 
         n_finite = len(self.shape)
         if len(item) == n_finite and self.n_infinite:
